@@ -22,6 +22,7 @@ type compiler struct {
 	scopes        []*scopeinfo
 	scopecnt      int
 	regexpCache   sync.Map
+	importDepth   int
 }
 
 // Code is a compiled jq query.
@@ -179,6 +180,11 @@ func (c *compiler) compileImport(i *Import) error {
 		}
 	}
 	c.appendCodeInfo("module " + path)
+	if c.importDepth++; c.importDepth > 256 {
+		// modules importing each other would recurse until the stack overflows
+		return fmt.Errorf("module imports nested too deeply: %q", path)
+	}
+	defer func() { c.importDepth-- }()
 	if err = c.compileModule(q, alias); err != nil {
 		return err
 	}
